@@ -361,13 +361,98 @@ fn lzip_prefix_ok(orig: &Item, members: &[(usize, usize)], member_content_ends: 
     false
 }
 
+/// LZIPReaderMT over the same LZIP mutants, in isolated child processes (real threads: a hang or
+/// a crash is attributed to the mutant in flight by the watchdog instead of stalling the check).
+pub struct MtMutants {
+    items: Vec<Item>,
+    /// (item index, description, class, bytes)
+    mutants: Vec<(usize, String, &'static str, Vec<u8>)>,
+}
+
+impl MtMutants {
+    fn build() -> Self {
+        let items: Vec<Item> = c04_items().into_iter().filter(|it| matches!(it.cont, Container::Lzip { .. })).collect();
+        let mut mutants = vec![];
+        for (ii, it) in items.iter().enumerate() {
+            let mut add = |m: Mutant| {
+                if m.bytes != it.bytes {
+                    mutants.push((ii, m.desc, m.class, m.bytes));
+                }
+            };
+            byte_mutants(&it.bytes, 1, &mut add);
+            structured_mutants(it, &mut add);
+        }
+        MtMutants { items, mutants }
+    }
+}
+
+impl crate::iso::IsoCheck for MtMutants {
+    fn n_cases(&self) -> usize {
+        self.mutants.len()
+    }
+    fn desc(&self, i: usize) -> String {
+        let (ii, d, _, _) = &self.mutants[i];
+        format!("C04|{}|LzipMt|{}", self.items[*ii].name, d)
+    }
+    fn attrs(&self, i: usize) -> Vec<(String, String)> {
+        vec![("family".into(), "lzip".into()), ("reader".into(), "LzipMt".into()), ("mutation".into(), self.mutants[i].2.into()), ("foreign".into(), "false".into())]
+    }
+    fn run(&self, i: usize, rep: &Report) -> bool {
+        let (ii, _, _, bytes) = &self.mutants[i];
+        let it = &self.items[*ii];
+        let members = lzip_members(&it.bytes);
+        let mut ends = vec![];
+        let mut acc = 0usize;
+        for (_, e) in &members {
+            acc += u64::from_le_bytes(it.bytes[e - 16..e - 8].try_into().unwrap()) as usize;
+            ends.push(acc);
+        }
+        let limit = it.input.len() * 4 + (1 << 16);
+        let r = catch(|| {
+            let mut r = lzma_rust2::LZIPReaderMT::new(std::io::Cursor::new(bytes.as_slice()), 2)?;
+            codec::read_all(&mut r, 1 << 15, limit)
+        });
+        let mk = |kind: &str, site: String, detail: String| {
+            let mut v = Violation::new(kind, site, self.desc(i)).detail(detail);
+            for (k, val) in self.attrs(i) {
+                v = v.attr(&k, val);
+            }
+            rep.violation(v);
+        };
+        match r {
+            Err(p) => {
+                mk("panic", p.site(), format!("{}:{} {}", p.file, p.line, p.msg));
+                false
+            }
+            Ok(Err(_)) => true,
+            Ok(Ok(out)) => {
+                if out == it.input || lzip_prefix_ok(it, &members, &ends, bytes, &out) {
+                    true
+                } else {
+                    mk(
+                        "accepted-corruption",
+                        if out.is_empty() { "accepted as an empty file".into() } else { "accepted with different, missing or extra data".into() },
+                        format!("original {} bytes, LZIPReaderMT returned Ok with {} bytes | mutant file={}", it.input.len(), out.len(), brief(bytes)),
+                    );
+                    false
+                }
+            }
+        }
+    }
+}
+
 pub fn run(cli: &Cli, rep: &Report) {
+    if cli.args.iter().any(|a| a == "--child") {
+        let check: &'static MtMutants = Box::leak(Box::new(MtMutants::build()));
+        crate::iso::run_isolated(cli, rep, check);
+        return;
+    }
     let thorough = cli.thorough();
     rep.rule(
         "fault enumeration: for every file of a ~35-file corpus (XZ with CRC32/CRC64/SHA-256, 1-3 blocks, filters; LZIP with 1-3 members incl. an empty one; liblzma-made XZ) \
          every single-bit flip, byte substitution, region deletion/duplication/transposition (1,2,3,4,8 bytes), 1-byte insertion at every position, every truncation, prefix/suffix \
          insertions, and every header/index/footer/trailer field at its boundary values with the enclosing CRC32 recomputed; plus every byte string of length <= 2 and MICRO(A3,6) \
-         as a whole file; each mutant is read by XZReader (multi- and single-stream) or LZIPReader. A mutant is non-trivial when its bytes differ from the original file",
+         as a whole file; each mutant is read by XZReader (multi- and single-stream) or LZIPReader, LZIP mutants additionally by LZIPReaderMT (2 workers, isolated child processes with a watchdog). A mutant is non-trivial when its bytes differ from the original file",
     );
     rep.assumption("medium files: full treatment for the first/last 64 bytes and every 97th byte in between (stated stride)");
     rep.assumption("LZIP tolerance applied exactly as the property states it (complete identical leading members followed by bytes not starting with the magic)");
@@ -527,6 +612,12 @@ pub fn run(cli: &Cli, rep: &Report) {
             rep.nontrivial_many(&st.1);
         },
     );
+    // LZIPReaderMT over the LZIP mutants, isolated
+    {
+        let check: &'static MtMutants = Box::leak(Box::new(MtMutants::build()));
+        rep.extra("lzip_mt_mutants", json!(check.mutants.len()));
+        crate::iso::run_isolated(cli, rep, check);
+    }
     if rep.n_samples() == 0 {
         rep.sample(json!({"file": items[0].name, "mutants": ["flip@0.0", "sub@5=ff", "del@12+4", "trunc@17", "xz:index[1]=ff+crc"]}));
         rep.sample(json!({"whole_file": "4c5a4950010c00"}));
